@@ -2,37 +2,32 @@
    generator's argument handling, zygo/generator.go).  The runtime half of the property (Go panics,
    fatal errors, deadlock) is decided by the panic search of harness/cmd/c01, not by a theorem.
 
-   Full statement aimed at:
-     gen_total : forall oracles fuel xs s, load oracles fuel xs <> RCrash s
-   It is FALSE of the faithful model (and of the code): gen_total_refuted.  What holds instead
-   is gen_total_partial: the type assertion in GenerateInclude is the ONLY reachable panic site;
-   every index, slice, type assertion and explicit panic of the other 23 special forms, of
-   Generate, GenerateCall, GenerateAssignment, GetLHS, getQuotedSymbol, buildSexpFun is guarded,
-   for all arities, argument shapes, nesting depths, macro expansions, infix expansions and
-   included files (the three oracles are universally quantified). *)
+   gen_total: for every list of top-level expressions, of any shape, arity and nesting depth, and
+   for every behaviour of the three oracles (what a macro run at compile time returns, what the
+   infix expansion returns, what an included file contains), the model of LoadExpressions /
+   Generate never reaches a panic site: every index, slice, unchecked type assertion and explicit
+   panic of the 24 special forms, of Generate, GenerateCall, GenerateAssignment, GetLHS,
+   getQuotedSymbol and buildSexpFun is guarded.  gen_no_latent: no generated BindlistInstr holds a
+   nil symbol.  (Both were refuted on the tree before the commits ba6ac11 and 71e544b; the former
+   witnesses are now the Examples ex_include_improper / ex_mdef_list_target.) *)
 From Coq Require Import List.
 Import ListNotations.
 Require Import ZV.Model.GenShape ZV.Proofs.GenShapeProofs ZV.Model.Lexer.
 
-Theorem gen_total_partial : forall omacro oinfix ofile fuel xs s,
-  load omacro oinfix ofile fuel xs = RCrash s -> s = SiteIncludeTail.
-Proof. exact load_only_include_crash. Qed.
-Print Assumptions gen_total_partial.
+Theorem gen_total : forall omacro oinfix ofile fuel xs s,
+  load omacro oinfix ofile fuel xs <> RCrash s.
+Proof. exact load_no_crash. Qed.
+Print Assumptions gen_total.
 
-Theorem gen_step_total_partial : forall omacro oinfix ofile fuel md g m e s,
-  run omacro oinfix ofile fuel md g m e = RCrash s -> s = SiteIncludeTail.
-Proof. exact run_only_include_crash. Qed.
-Print Assumptions gen_step_total_partial.
+Theorem gen_step_total : forall omacro oinfix ofile fuel md g m e s,
+  run omacro oinfix ofile fuel md g m e <> RCrash s.
+Proof. exact run_no_crash. Qed.
+Print Assumptions gen_step_total.
 
-(* (include ([] \ 1)) : replayed on the real code by the check (panic in GenerateInclude) *)
-Theorem gen_total_refuted : exists xs, load_deferred 10 xs = RCrash SiteIncludeTail.
-Proof. exists [w_include]. exact include_crashes. Qed.
-Print Assumptions gen_total_refuted.
-
-(* (mdef (a) b 1) compiles, but the emitted BindlistInstr holds a nil symbol (panics when run) *)
-Theorem gen_latent_refuted : exists xs, load_deferred 10 xs = ROk [] true.
-Proof. exists [w_mdef]. exact mdef_latent. Qed.
-Print Assumptions gen_latent_refuted.
+Theorem gen_no_latent : forall omacro oinfix ofile fuel xs m,
+  load omacro oinfix ofile fuel xs <> ROk m true.
+Proof. exact load_no_latent. Qed.
+Print Assumptions gen_no_latent.
 
 (* the lexer model of C13 (Model/Lexer.v) has no crash outcome: LexNextRune returns a state or
    an error state for every rune in every state *)
@@ -41,6 +36,10 @@ Proof. exact lex_rune_total. Qed.
 Print Assumptions lex_total.
 
 (* non-vacuity: ordinary forms generate, malformed ones are errors, not crashes *)
+Example ex_include_improper : load_deferred 10 [w_include] = RErr.      (* (include ([] \ 1)) *)
+Proof. exact include_improper_is_error. Qed.
+Example ex_mdef_list_target : load_deferred 10 [w_mdef] = RErr.         (* (mdef (a) b 1) *)
+Proof. exact mdef_list_target_is_error. Qed.
 Example ex_and_empty : load_deferred 10 [lst [SSym (ysym (NForm FAnd) 1)]] = RErr.
 Proof. vm_compute. reflexivity. Qed.
 Example ex_let_ok :
